@@ -32,7 +32,7 @@ type doc
   relations
     define viewer: [user, user with c1, user with c2]
     define editor: [user]
-type folder
+type docs
   relations
     define viewer: [user, user with c1]
 condition c1(x: int) {
@@ -82,7 +82,7 @@ type Base struct {
 }
 
 var docVariants = [][2]any{{"", 0}, {"c1", 1}, {"c1", 2}, {"c1", 0}, {"c2", 1}}
-var folderVariants = [][2]any{{"", 0}, {"c1", 1}, {"c1", 2}, {"c1", 0}}
+var docsVariants = [][2]any{{"", 0}, {"c1", 1}, {"c1", 2}, {"c1", 0}}
 var plainVariants = [][2]any{{"", 0}}
 
 // Universe is the 6-tuple universe (two object types, three relations).
@@ -91,12 +91,12 @@ var Universe = []Base{
 	{"doc:1", "viewer", "user:b", docVariants},
 	{"doc:2", "viewer", "user:a", docVariants},
 	{"doc:1", "editor", "user:a", plainVariants},
-	{"folder:1", "viewer", "user:a", folderVariants},
-	{"folder:1", "viewer", "user:b", folderVariants},
+	{"docs:1", "viewer", "user:a", docsVariants},
+	{"docs:1", "viewer", "user:b", docsVariants},
 }
 
 // ObjectTypes of the universe.
-var ObjectTypes = []string{"doc", "folder"}
+var ObjectTypes = []string{"doc", "docs"}
 
 func (b Base) With(v [2]any) Tup {
 	return Tup{Object: b.Object, Relation: b.Relation, User: b.User, CondName: v[0].(string), CtxX: v[1].(int)}
